@@ -58,6 +58,7 @@ def new_pool():
         "P3": U(S[4]),
         "P4": U(S[6]),
         "P5": U(S[2]),
+        "P7": U("http://a.com"),     # authority, empty path, nothing else ('' and '/' compare equal there, but are stored differently)
         "P6": U("http://h.org:99999/p", encoded=True),   # taken as is: its authority is only parsed (and rejected) when first read
         "D": {"q": "2", "n": ["1", "2"]},
         "L": [("a", "1"), ("a", "2")],
@@ -65,7 +66,7 @@ def new_pool():
     }
 
 
-URL_SLOTS = ("P0", "P1", "P2", "P3", "P4", "P5")
+URL_SLOTS = ("P0", "P1", "P2", "P3", "P4", "P5", "P7")
 ARG_SLOTS = ("D", "L", "MD")
 
 
@@ -124,6 +125,8 @@ def _ops():
     add("P6.raw_host", lambda p: p["P6"].raw_host)
     add("str/hash(P1)", lambda p: (str(p["P1"]), hash(p["P1"])))
     add("P0==P1, P0<P1", lambda p: (p["P0"] == p["P1"], p["P0"] < p["P1"], p["P4"] == impl.URL(""), hash(p["P0"]) == hash(p["P1"])))
+    add("sorted([P7, P0, P1]), P7 <= P7", lambda p: ([str(x) for x in sorted([p["P7"], p["P0"], p["P1"]])], p["P7"] <= p["P7"], p["P7"] > p["P0"]))
+    add("copy/pickle(P7)", lambda p: (out_url(copy.copy(p["P7"])), out_url(pickle.loads(pickle.dumps(p["P7"]))), out_url(copy.deepcopy(p["P7"]))))
     add("P2.human_repr()", lambda p: p["P2"].human_repr())
     add("unpickle(P0)", lambda p: out_url(pickle.loads(pickle.dumps(p["P0"]))))
     add("unpickle(URL('http://x.org/y'))", lambda p: out_url(pickle.loads(pickle.dumps(impl.URL("http://x.org/y")))))
